@@ -243,9 +243,56 @@ func checkC02Batch(t *testing.T, sc BatchSc) Verdict {
 	return ok(sc.budget() >= 2 && fails, cls...)
 }
 
+// ---- flows with a retry budget: a failing flow is re-run from its start, at most N times
+
+func checkC02Flow(t *testing.T, sc WF) Verdict {
+	var v Verdict
+	f := Bubble(t, func() {
+		x := newWfExec(&sc)
+		m := newWfModel(&sc)
+		retried := false
+		for r := 0; r < sc.runs(); r++ {
+			rr := x.run(context.Background())
+			mr := m.run()
+			if rr.Panic != "" {
+				v = bad("C02:panic", "run panicked: %s", rr.Panic)
+				return
+			}
+			tr := x.snapshot()[rr.Lo:rr.Hi]
+			if !sameShape(tr, mr.Trace) {
+				v = bad("C02:flow-retry", "flow with retry budget: callbacks %v, reference (re-run from the start node, at most N times, until the first success) %v", traceStrings(tr), modelStrings(mr.Trace))
+				return
+			}
+			if (rr.Err == nil) != mr.OK {
+				v = bad("C02:flow-retry-outcome", "err=%v, reference ok=%v", rr.Err, mr.OK)
+				return
+			}
+			fails := 0
+			for _, e := range tr {
+				if e.RetErr != nil {
+					fails++
+				}
+			}
+			if fails > 0 && mr.OK {
+				retried = true
+			}
+		}
+		v = ok(retried, "flow-with-retry-budget")
+	})
+	if f != "" {
+		return bad("C02:bubble", "%s", f)
+	}
+	return v
+}
+
 func c02Batch(r *Run) {
+	gf := wfGen{MaxLeaves: 4, MaxFlows: 3, Actions: []string{"a", "b", ""}, PErr: 120, PExecErr: 350, MaxN: 2, Waits: true, MaxVisits: 3, FuelMax: 8, FlowRetry: true, Kinds: []int{KBase, KPlain, KFunc, KPlainRetry}}
+	rapidPart(r, "flow-retry", r.pick(2000, 30000), gf.gen, checkC02Flow)
 	g := batchGen{MinN: 1, MaxN: r.pick(4, 16), MaxC: 3, Modes: []int{0, 1}, MaxBudget: 8, PFail: 550, Fb: true, Gated: 1, MaxSched: 40, Waits: true}
 	rapidPart(r, "batch-items", r.pick(3000, 60000), g.gen, checkC02Batch)
 }
 
-func init() { registerReplaySub("C02", "batch-items", checkC02Batch) }
+func init() {
+	registerReplaySub("C02", "batch-items", checkC02Batch)
+	registerReplaySub("C02", "flow-retry", checkC02Flow)
+}
